@@ -12,7 +12,7 @@ import (
 func init() {
 	register(&Spec{ID: "C03", Title: "Each response is delimited by exactly one final DONE and fully drained", Run: runC03,
 		Meta: core.Meta{
-			Explanation: "Structural necessary conditions of response delimiting, decided on SSA. R03.1: every test of 'final DONE' in package tds (outside Login, which is C08's) is an exact comparison of DonePackage.Status with TDS_DONE_FINAL; a mask test against the zero-valued constant is recognised as constant-false; isDoneFinal answers true only for an asserted *DonePackage whose Status equals TDS_DONE_FINAL. R03.2: the synthetic DONE(FINAL) in tryParsePackage is sent only when the token read failed, the queue is at EOM and the last delivered package is not a DONE with Status == FINAL (path condition), the function then returns false, and WritePacket resets the rx queue on the EOM edge of a failed attempt; every delivery `packageCh <- pkg` is followed on all paths by lastPkgRx = pkg. R03.3: in NextPackageUntil every path from a callback error to a return either compares the error for identity with io.EOF (the documented multi-result-set shortcut; errors.Is would also swallow wrapped EOFs), or has isDoneFinal(pkg) true, or passes the draining recursive call NextPackageUntil(ctx, wait, nil); in nil-callback mode every return is dominated by isDoneFinal being true or follows the recursive call whose callback is isDoneFinal. R03.5 = R02.4 (AddPacket sets recvEOM exactly under Status&TDS_BUFSTAT_EOM == TDS_BUFSTAT_EOM, a mask test: the EOM packet of a response may carry further status bits). R03.6: every error return of NextPackage other than the closed-channel one is dominated by the non-blocking receive from packageCh, so a drain running under an ended context still empties what was received. R03.7 = R07.1/R02.5: every wire read in every parser reports a short read as ErrNotEnoughBytes (matched by errors.Is); any other error for a package that is merely cut by a packet boundary is queued on errCh in the middle of a response, and the tail of that response is then read as the start of the next one. R03.8 = R02.7 (once a package of the response was consumed, an EED included, every further receive waits: a poll that gives up mid-response leaves its tail for the next request). R03.9 = R02.11 (the tx-side reset after a send must not touch the receive queue: the first packet of the response may already be in it). R03.4: Reset restores the tx side (header type, tx queue, lastPkgTx) and SendRemainingPackets runs it on every exit after the closed check.",
+			Explanation: "Structural necessary conditions of response delimiting, decided on SSA. R03.1: every test of 'final DONE' in package tds (outside Login, which is C08's) is an exact comparison of DonePackage.Status with TDS_DONE_FINAL; a mask test against the zero-valued constant is recognised as constant-false; isDoneFinal answers true only for an asserted *DonePackage whose Status equals TDS_DONE_FINAL. R03.2: the synthetic DONE(FINAL) in tryParsePackage is sent only when the token read failed, the queue is at EOM and the last delivered package is not a DONE with Status == FINAL (path condition), the function then returns false, and WritePacket resets the rx queue on the EOM edge of a failed attempt; every delivery `packageCh <- pkg` is followed on all paths by lastPkgRx = pkg. R03.3: in NextPackageUntil every path from a callback error to a return either compares the error for identity with io.EOF (the documented multi-result-set shortcut; errors.Is would also swallow wrapped EOFs), or has isDoneFinal(pkg) true, or passes the draining recursive call NextPackageUntil(ctx, wait, nil); in nil-callback mode every return is dominated by isDoneFinal being true or follows the recursive call whose callback is isDoneFinal. R03.5 = R02.4 (AddPacket sets recvEOM exactly under Status&TDS_BUFSTAT_EOM == TDS_BUFSTAT_EOM, a mask test: the EOM packet of a response may carry further status bits). R03.6: every error return of NextPackage other than the closed-channel one is dominated by the non-blocking receive from packageCh, so a drain running under an ended context still empties what was received. R03.7 = R07.1/R02.5: every wire read in every parser reports a short read as ErrNotEnoughBytes (matched by errors.Is); any other error for a package that is merely cut by a packet boundary is queued on errCh in the middle of a response, and the tail of that response is then read as the start of the next one. R03.8 = R02.7 (once a package of the response was consumed, an EED included, every further receive waits: a poll that gives up mid-response leaves its tail for the next request). R03.9 = R02.11 (the tx-side reset after a send must not touch the receive queue: the first packet of the response may already be in it). R03.10: every return of WritePacket behind the AddPacket call is on the !tryParsePackage() edge. R03.4: Reset restores the tx side (header type, tx queue, lastPkgTx) and SendRemainingPackets runs it on every exit after the closed check.",
 			NotDecided:  "That the first package after the next request belongs to the next response depends on the history of lastPkgRx and is not decided; EED interleavings and packetisations are not explored.",
 			Assumptions: []string{"the reader goroutine is the only caller of tryParsePackage (checked: one call site)"},
 		}})
@@ -34,6 +34,8 @@ func runC03(r *core.Run) {
 	defer c02WaitAfterFirst(r, "R03.8")
 	r.Rule("R03.9", "only the reader goroutine touches the receive queue (R02.11)", 1, false)
 	defer rxOwnership(r, "R03.9")
+	r.Rule("R03.10", "after queueing a packet WritePacket stops only on a failed parse attempt (which handles end of message)", 1, false)
+	defer c03WritePacketExits(r)
 
 	fDoneStatus := p.Field("tds", "DonePackage", "Status")
 	cFinal := constOf(p, "tds", "TDS_DONE_FINAL")
@@ -588,4 +590,41 @@ func c03QueuedFirst(r *core.Run) {
 		why = "NextPackage can fail with " + core.Expr(rv[len(rv)-1]) + " (" + p.Pos(ret.Pos()) + ") before it has looked at the package queue: a drain whose context has ended consumes nothing and the rest of the response is read as the start of the next one"
 	}
 	r.Check(why == "", "R03.6", key, fast.Pos(), "every error return (other than ErrChannelClosed) comes after the non-blocking receive", why)
+}
+
+// c03WritePacketExits: R03.10. After a packet was queued, WritePacket stops only on a FAILED parse attempt — that
+// attempt is what looks at the end-of-message flag (synthetic final DONE in tryParsePackage, reset of the rx queue in
+// WritePacket). A shortcut that returns after a successful parse "because nothing is left" leaves the sticky EOM flag
+// set for the next response.
+func c03WritePacketExits(r *core.Run) {
+	p := r.Prog
+	fn := p.Func("tds", "Channel", "WritePacket")
+	tpp := p.Func("tds", "Channel", "tryParsePackage")
+	add := p.Func("tds", "PacketQueue", "AddPacket")
+	adds := callsTo(fn, add)
+	tries := callsTo(fn, tpp)
+	if len(adds) != 1 || len(tries) == 0 {
+		r.Unknown("R03.10", "WritePacket: exits after queueing", fn.Pos(), "AddPacket / tryParsePackage calls not found")
+		return
+	}
+	why := ""
+	n := 0
+	for _, ret := range core.Returns(fn) {
+		if !adds[0].Block().Dominates(ret.Block()) {
+			continue
+		}
+		n++
+		failed := false
+		for _, g := range core.GuardsAt(ret) {
+			for _, t := range tries {
+				if g.Cond == t.Value() && !g.Pol {
+					failed = true
+				}
+			}
+		}
+		if !failed {
+			why = "WritePacket can return (" + p.Pos(ret.Pos()) + ") after a packet was queued without a failed parse attempt having been made: the end-of-message handling (reset of the rx queue, synthetic final DONE) is skipped and the EOM flag of this response is still set when the next one arrives"
+		}
+	}
+	r.Check(why == "" && n > 0, "R03.10", "WritePacket: every exit after queueing follows a failed parse attempt", fn.Pos(), "returns only on !tryParsePackage()", why)
 }
